@@ -95,8 +95,41 @@ def showFlagProc (cmd : FlagCmd) : FlagProc → String
 def fileName : List Char := "f.asm".toList
 def destName : List Char := "out.lc3".toList
 
+def objName : List Char := "f.lc3".toList
+
+/-- `P18 runobj …`: the source is compiled WITH the feature (set-up, not observed), then
+`lace run f.lc3 --minimal` is spawned with the option as the request says. -/
+def handleP18Obj (style value fuel inp src : String) : String :=
+  match parseText value, parseHex fuel, parseBytes inp, parseText src with
+  | some value, some fuel, some inp, some src =>
+    match (assemble true [] src).1 with
+    | .ok img =>
+      let bytes := objBytes img.orig img.words
+      let g : FlagArg := if style == "G" || style == "B" then .given value else .absent
+      let l : FlagArg := if style == "N" || style == "G" then .absent else .given value
+      let m := "M " ++ showFlagProc .run (laceFlagObj g l fuel objName bytes inp)
+      if style == "G" then
+        -- `C18.obj_flag_position_irrelevant`
+        m ++ " ;; S " ++ showFlagProc .run (laceFlagObj .absent (.given value) fuel objName bytes inp)
+      else
+      match featuresOf2 g l with
+      | .ok false =>
+        -- `C18.obj_flag_irrelevant`: no opcode 0xD fetched without the option ⇒ as with `-f stack`
+        let noD : Bool :=
+          bytes.length % 2 == 0 &&
+          match Run.fromRaw (wordsOfBytes bytes) with
+          | .ok m0 => (Run.fetchedWords false true fuel m0 (runWorld objName inp)).all (fun x => !Run.isOpD x)
+          | _ => true
+        if noD then
+          m ++ " ;; S " ++ showFlagProc .run (laceFlagObj .absent (.given Features.stackWord) fuel objName bytes inp)
+        else m
+      | _ => m
+    | _ => "M st=nocompile"
+  | _, _, _, _ => "bad-request"
+
 def handleP18 (toks : List String) : String :=
   match toks with
+  | ["runobj", style, value, fuel, inp, src] => handleP18Obj style value fuel inp src
   | [cmd, style, value, fuel, inp, src] =>
     let cmd? : Option FlagCmd :=
       if cmd == "check" then some .check else if cmd == "compile" then some .compile
